@@ -400,3 +400,171 @@ package tchannel
 //@   loop 0 invariant old(optsOf(runCtx).MaxAttempts) != 0 ==> opts.MaxAttempts == old(optsOf(runCtx).MaxAttempts)
 //@   loop 0 invariant opts.RetryOn == old(optsOf(runCtx).RetryOn)
 //@   property C17
+
+// ===========================================================================
+// checksum.go -- running checksums (C02, C03)
+// A checksum object has ghost state cs(obj); Add folds bytes in with the
+// uninterpreted csupd, Sum exposes cssum(cs) as csize(type) bytes (4 for the
+// CRCs, big-endian), Reset returns to csinit. tcode(obj) is the object's fixed
+// type. T3 ties csupd/cssum to the real CRC-32 / CRC-32C of hash/crc32.
+// ===========================================================================
+
+//@ ghostfield cs
+//@ ghost func csinit() int
+//@ ghost func csupd(c int, b bytes) int
+//@ ghost func cssum(c int) int
+//@ ghost func tcode(obj Checksum) int
+
+//@ iface Checksum.TypeCode() (t ChecksumType)
+//@   modifies nothing
+//@   ensures t == tcode(self)
+//@ iface Checksum.Size() (n int)
+//@   modifies nothing
+//@   ensures n == ChecksumType(tcode(self)).ChecksumSize()
+//@ iface Checksum.Add(b []byte) (r []byte)
+//@   modifies cs(self)
+//@   ensures cs(self) == csupd(old(cs(self)), b)
+//@ iface Checksum.Sum() (r []byte)
+//@   modifies nothing
+//@   ensures len(r) == ChecksumType(tcode(self)).ChecksumSize()
+//@   ensures len(r) == 4 ==> be32(r, 0) == cssum(cs(self))
+//@ iface Checksum.Reset()
+//@   modifies cs(self)
+//@   ensures cs(self) == csinit()
+//@ iface Checksum.Release()
+//@   modifies nothing
+
+//@ func (t ChecksumType) ChecksumSize() (n int)
+//@   pure
+//@   ensures (t == ChecksumTypeCrc32 || t == ChecksumTypeCrc32C || t == ChecksumTypeFarmhash) ==> n == 4
+//@   ensures !(t == ChecksumTypeCrc32 || t == ChecksumTypeCrc32C || t == ChecksumTypeFarmhash) ==> n == 0
+//@   property C02 C03 C01
+
+//@ func (t ChecksumType) isKnown() (ok bool)
+//@   ensures ok <==> t < 4
+//@   property C03 C02
+
+// The pool lookup is only ever done with a known type (the byte comes from the peer).
+//@ func (t ChecksumType) pool() (p *sync.Pool)
+//@   requires t < 4
+//@   property C03 C02
+
+// A checksum handed out for a message starts from the initial state (pooled
+// objects are Reset) and has the requested type (pool discipline, T3).
+//@ func (t ChecksumType) New() (c Checksum)
+//@   requires t < 4
+//@   modifies cs(c)
+//@   ensures c != nil && cs(c) == csinit()
+//@   defines tcode(c) == t
+//@   property C02 C03
+
+//@ func (t ChecksumType) Release(checksum Checksum)
+//@   requires t < 4
+//@   property C02
+
+// hashChecksum: the concrete object folds exactly the bytes it is given into
+// its hash once, reports the hash's sum, and resets the hash (hs = ghost state
+// of the hash.Hash, T3).
+//@ ghostfield hs
+//@ iface hash.Hash.Write(p []byte) (n int, err error)
+//@   modifies hs(self)
+//@   ensures hs(self) == csupd(old(hs(self)), p)
+//@ iface hash.Hash.Sum(b []byte) (r []byte)
+//@   modifies nothing
+//@   ensures len(r) == len(b) + 4 && be32(r, len(b)) == cssum(hs(self))
+//@ iface hash.Hash.Reset()
+//@   modifies hs(self)
+//@   ensures hs(self) == csinit()
+//@ iface hash.Hash.Size() (n int)
+//@   modifies nothing
+//@   ensures n == 4
+
+//@ func (h *hashChecksum) TypeCode() (t ChecksumType)
+//@   ensures t == h.checksumType
+//@   property C02
+//@ func (h *hashChecksum) Add(b []byte) (r []byte)
+//@   requires h.hash != nil
+//@   modifies hs(h.hash)
+//@   label adds-exactly-b-once
+//@   ensures hs(h.hash) == csupd(old(hs(h.hash)), b)
+//@   property C02
+//@ func (h *hashChecksum) Sum() (r []byte)
+//@   requires h.hash != nil
+//@   ensures len(r) == len(h.sumCache) + 4 && be32(r, len(h.sumCache)) == cssum(hs(h.hash))
+//@   property C02
+//@ func (h *hashChecksum) Reset()
+//@   requires h.hash != nil
+//@   modifies hs(h.hash)
+//@   label reset-returns-to-initial-state
+//@   ensures hs(h.hash) == csinit()
+//@   property C02
+//@ func newHashChecksum(t ChecksumType, hash hash.Hash) (h *hashChecksum)
+//@   ensures fresh(h) && h.checksumType == t && h.hash == hash && len(h.sumCache) == 0
+//@   property C02
+//@ func (c nullChecksum) TypeCode() (t ChecksumType)
+//@   ensures t == ChecksumTypeNone
+//@   property C02
+//@ func (c nullChecksum) Size() (n int)
+//@   ensures n == 0
+//@   property C02
+//@ func (c nullChecksum) Sum() (r []byte)
+//@   ensures len(r) == 0
+//@   property C02
+
+// ===========================================================================
+// fragmenting_writer.go -- chunks and fragments on the write side (C01, C02)
+// ===========================================================================
+
+// WC: a chunk's size placeholder is the two bytes just before its data, and
+// the chunk can never outgrow a 16-bit length (the fragment buffer is at most
+// 65519 bytes).
+//@ pred WC(c *writableChunk) := c != nil && c.contents != nil && c.checksum != nil && c.contents.err == nil &&
+//@        c.sizeRef != nil && len(c.sizeRef) >= 2 && c.size + len(c.contents.remaining) <= 65535
+
+//@ func newWritableChunk(checksum Checksum, contents *typed.WriteBuffer) (c *writableChunk)
+//@   requires checksum != nil
+//@   modifies contents.remaining, contents.err, elems(contents.remaining)
+//@   ensures fresh(c) && c.size == 0 && c.checksum == checksum && c.contents == contents
+//@   ensures old(contents.err) == nil && len(old(contents.remaining)) >= 2 ==>
+//@             contents.err == nil && c.sizeRef == old(contents.remaining)[:2] && contents.remaining == old(contents.remaining)[2:]
+//@   ensures typed.Suffix(contents.remaining, old(contents.remaining))
+//@   property C01 C02
+
+// writeAsFits: the bytes folded into the checksum are exactly the bytes
+// written into the chunk, truncated to the room left; the chunk length grows
+// by that amount.
+//@ func (c *writableChunk) writeAsFits(b []byte) (n int)
+//@   requires WC(c)
+//@   modifies c.size, c.contents.remaining, c.contents.err, elems(c.contents.remaining), cs(c.checksum)
+//@   label writes-what-fits
+//@   ensures (len(b) <= len(old(c.contents.remaining)) ==> n == len(b)) && (len(b) > len(old(c.contents.remaining)) ==> n == len(old(c.contents.remaining)))
+//@   label checksum-over-the-written-bytes
+//@   ensures cs(c.checksum) == csupd(old(cs(c.checksum)), old(b[:n]))
+//@   label bytes-copied-in-order
+//@   ensures samebytes(old(c.contents.remaining), 0, old(b), 0, n)
+//@   ensures c.contents.remaining == old(c.contents.remaining)[n:] && c.contents.err == nil
+//@   label chunk-length-counts-the-bytes
+//@   ensures c.size == old(c.size) + n
+//@   ensures WC(c)
+//@   property C01 C02
+
+// finish: the chunk's length field holds the number of bytes written in it.
+//@ func (c *writableChunk) finish()
+//@   requires c.sizeRef == nil || len(c.sizeRef) >= 2
+//@   modifies elems(c.sizeRef)
+//@   ensures c.sizeRef != nil ==> be16(c.sizeRef, 0) == c.size
+//@   property C01
+
+// finish: the running checksum is stamped into the fragment in both branches;
+// the more-fragments flag is set iff asked (never cleared).
+//@ func (f *writableFragment) finish(hasMoreFragments bool)
+//@   requires f.checksum != nil && (f.flagsRef == nil || len(f.flagsRef) >= 1)
+//@   requires len(f.checksumRef) == ChecksumType(tcode(f.checksum)).ChecksumSize()
+//@   requires arr(f.flagsRef) != arr(f.checksumRef) || off(f.flagsRef) < off(f.checksumRef)
+//@   modifies elems(f.checksumRef), elems(f.flagsRef)
+//@   label checksum-stamped
+//@   ensures len(f.checksumRef) == 4 ==> be32(f.checksumRef, 0) == cssum(cs(f.checksum))
+//@   label more-flag-set-iff-more
+//@   ensures hasMoreFragments && f.flagsRef != nil ==> u8at(f.flagsRef, 0) == 1
+//@   ensures !hasMoreFragments && f.flagsRef != nil && (arr(f.flagsRef) != arr(f.checksumRef) || off(f.flagsRef) + 1 <= off(f.checksumRef)) ==> u8at(f.flagsRef, 0) == old(u8at(f.flagsRef, 0))
+//@   property C01 C02
